@@ -29,6 +29,17 @@ func c01Cases(tier string) []*space.Case {
 	}
 	base = append(base, space.F4()...)
 	base = append(base, space.F5()...)
+	// the configured, injected and all-excluded families the converter checks run on
+	have := map[string]bool{}
+	for _, c := range base {
+		have[c.Label] = true
+	}
+	for _, c := range append(configuredCases(tier), injectedCases()...) {
+		if !have[c.Label] {
+			have[c.Label] = true
+			base = append(base, c)
+		}
+	}
 	for _, rev := range []bool{false, true} {
 		base = append(base, &space.Case{Label: fmt.Sprintf("F5/names/reversed=%v", rev), Family: "F5", Tags: map[string]string{"class": "multiroot", "card": "mixed", "vt": "names", "pos": "deep"}, File: c12NamesFile(rev), Cfg: space.BaseConfig(c12NamesRoots...)})
 	}
@@ -55,9 +66,14 @@ func c01Cases(tier string) []*space.Case {
 		if c.Family == "F1" && i%9 != 0 && tier != "thorough" {
 			continue
 		}
-		for gi, gp := range []string{"example.com/acme/apitypes", "example.com/acme/api/types;apitypes"} {
-			v := space.Variant(c, gi == 1, false, "none")
+		for gi, gp := range []string{"example.com/acme/apitypes", "example.com/acme/api/types;apitypes", "example.com/acme/api_types", "", ""} {
+			// 2: a struct package name with an underscore, generated into a separate target package;
+			// 3, 4: a dotted proto package (protoc-gen-gogo names the Go package c0001_v1), both layouts
+			v := space.Variant(c, gi == 1, gi == 2 || gi == 3, "none")
 			v.File.GoPackage = gp
+			if gi >= 3 {
+				v.ProtoPkgSuffix = ".v1"
+			}
 			v.Label += fmt.Sprintf("|go_package=%d", gi)
 			v.Tags["go_package"] = fmt.Sprint(gi)
 			out = append(out, v)
